@@ -187,8 +187,8 @@ def _output_streams(tree):
     # encoders
     for c in STREAM_CLASSES:
         out += pair_list_def("encoders_" + c, h.encoders(c), doc=f"{c}.encoders, resolved")
-    for fn in ("noop", "format_datetime", "simplifier_encoder"):
-        out += str_list_def(fn + "_body", body_text(find_func(tree, fn)))
+    for fn in ("noop", "format_datetime", "simplifier_encoder", "_reject_nul"):
+        out += str_list_def(fn.strip("_") + "_body", body_text(find_func(tree, fn)))
     # cleanup
     cu = own_method(h.classes["OutputStream"], "cleanup")
     if cu is None:
